@@ -9,7 +9,6 @@ Model: lean/LenaModel/Model/C01Stream.lean + C01.lean, theorems lean/LenaModel/P
 Observable of a run (both sides): the values yielded, the exception class that ended the iteration (if any), and
 whether the exception was raised by the call `run(flow)` itself; for constructors: exception class, phase "init".
 """
-import itertools
 import warnings
 
 from harness.common import exc_name
@@ -68,14 +67,17 @@ ASSUMPTIONS = [
     "Python attribute lookup (hasattr/callable) is represented by capability flags read from the real objects",
 ]
 RULE = ("exhaustive: capability flags of every vocabulary kind and of all 108 synthetic classes (run/fill/compute in "
-        "{absent, non-callable, method} x callable x _has_no_data), each of them as the only element / between two "
-        "elements of a Sequence, as first element and in the tail of a Source; all ordered pairs of 44 representative "
-        "elements x 2 flows x both groupings; ALL bracketings (nodes of arity >= 2: 2, 6, 22 and in thorough 90 per list) "
-        "of seeded random element lists of length 2..4 (thorough ..5) plus decorated ones (empty and unary nested "
-        "Sequences); every Source cut point. sampled (seeded): programs of length 0..8 over the whole vocabulary (nested "
-        "RunIf/Split/Sequence to depth 3) with 3-6 random bracketings each, flows of length 0..8 of ints, strings, lists "
-        "and (data, context) pairs, optionally ending in an exception raised by the input iterator. "
-        "Non-trivial: at least two data elements and (a value yielded or an exception).")
+        "{absent, non-callable, method} x callable x _has_no_data), each of them bare and wrapped in adapters.Run as the only "
+        "element, between two elements of a Sequence (4 groupings), as first element and in the tail of a Source (every cut "
+        "point); all ordered pairs of the 43 representative elements x 2 flows (quick: alternately one of them) x 3 "
+        "groupings; every representative alone on a flow whose iterator raises / an empty flow / a one-value flow; ALL "
+        "bracketings (nodes of arity >= 2: 2, 6, 22, in thorough also 90 per list) of seeded random element lists of length "
+        "2..4 (thorough ..5). sampled (seeded; quick 2500 + 1000, thorough 150000 + 50000): programs of length 0..8 over the "
+        "whole vocabulary (nested RunIf/Split/Sequence to depth 3) with 3-6 random bracketings each (with empty and unary "
+        "nested Sequences), flows of length 0..8 of ints, strings, lists and (data, context) pairs, handed over as iterator "
+        "or as list, optionally ending in an exception raised by the input iterator; Source(first, *els) with every cut "
+        "point between tail and following Sequence. Non-trivial: at least two data elements and (a value yielded or an "
+        "exception).")
 CASE_TIMEOUT = 10
 
 # ----------------------------------------------------------------------------------------
@@ -157,10 +159,6 @@ def observe(thunk):
 
 # ----------------------------------------------------------------------------------------
 # the element vocabulary (real objects from specs)
-
-def _is_int(d):
-    return type(d) is int
-
 
 def _need_int(d):
     if type(d) is not int:
@@ -953,11 +951,12 @@ def gen_cases(ctx):
             cases.append({"op": "source", "first": s, "els": [inc], "cuts": [0, 1, 2]})
     # all ordered pairs of representative elements
     reps = REPRESENTATIVES
-    for a in reps:
-        for b in reps:
+    for i, a in enumerate(reps):
+        for j, b in enumerate(reps):
             if _floaty_conflict([a, b]):
                 continue
-            for fl in (FLOW_A, FLOW_B):
+            # quick: one of the two flows per pair (alternating); thorough: both
+            for fl in ((FLOW_A, FLOW_B) if thorough else ((FLOW_A,) if (i + j) % 2 == 0 else (FLOW_B,))):
                 cases.append({"op": "regroup", "els": [a, b], "flow": fl, "term": None, "brks": [[0, 1], [[0], [1]], [[0, 1]]]})
     for a in reps:
         for fl, term in ((FLOW_A, "Other:IndexError"), ([], None), ([7], "Other:TypeError")):
@@ -971,7 +970,7 @@ def gen_cases(ctx):
             els = gen_prog(rng, n)
             cases.append({"op": "regroup", "els": els, "flow": gen_flow(rng), "term": gen_term(rng), "brks": brks})
     # ---- sampled ------------------------------------------------------------------------------------
-    n_rand = 3000 if not thorough else 150000
+    n_rand = 2500 if not thorough else 150000
     for _ in range(n_rand):
         n = rng.choice([0, 1, 2, 2, 3, 3, 4, 4, 5, 6, 7, 8])
         els = gen_prog(rng, n)
